@@ -223,6 +223,7 @@ pub fn expect_tag(exp: &mut Expected, p: &str, region: &[u8], it: &Item, kind: u
         return;
     }
     exp.is(format!("{p}.cast"), Val::Ext(off, r8(size)));
+    exp.if_present(format!("{p}.rel"), Val::B(true));
     let k = |n: &str| format!("{p}.{n}");
     match kind {
         0 | 18 => {}
@@ -399,6 +400,7 @@ pub fn expect_tag(exp: &mut Expected, p: &str, region: &[u8], it: &Item, kind: u
                         exp.u(format!("{q}.addralign"), ent.addralign);
                         exp.either(format!("{q}.~end"), sum_or_panic(ent.addr, ent.size));
                         exp.any(format!("{q}.len_after"));
+                        exp.if_present(format!("{q}.rel"), Val::B(true));
                         if names {
                             exp.is(format!("{q}.name"), crate::elfnames::model_name(le32(b, at)));
                         }
